@@ -236,6 +236,72 @@ fn exec_inner(st: &mut St, cmd: &str) -> String {
             qvnt::verif::seed(None);
             format!("{} {}", fvec(&normals), nvec(&h))
         }
+        "threads" => rayon::current_num_threads().to_string(),
+        "par" => {
+            // par <k> <reps> ;; script   -- the same script single-threaded and with k threads
+            let k: usize = toks[1].parse().unwrap();
+            let reps: usize = toks[2].parse().unwrap();
+            let script: Vec<String> = cmd
+                .splitn(2, ";;")
+                .nth(1)
+                .unwrap_or("")
+                .split(";;")
+                .map(|c| c.trim().to_string())
+                .filter(|c| !c.is_empty())
+                .collect();
+            let run = |thr: usize| -> Vec<String> {
+                let mut s2 = St::default();
+                script.iter().map(|c| exec(&mut s2, &c.replace("THR", &thr.to_string()))).collect()
+            };
+            let base = run(1);
+            for rep in 0..reps {
+                let other = run(k);
+                // once a derived sum (the norm) has been fed back into the amplitudes, they agree
+                // to rounding only
+                let mut approx = false;
+                for (i, (a, b)) in base.iter().zip(other.iter()).enumerate() {
+                    let c0 = script[i].split_whitespace().next().unwrap_or("");
+                    if c0 == "normalize" || c0 == "measure" {
+                        approx = true;
+                    }
+                    let same = if c0 == "probs" || c0 == "absolute" || approx {
+                        // derived sums: equal to rounding
+                        let pa: Vec<f64> = a.split_whitespace().skip(1).map(|t| f64::from_bits(t.parse().unwrap_or(0))).collect();
+                        let pb: Vec<f64> = b.split_whitespace().skip(1).map(|t| f64::from_bits(t.parse().unwrap_or(0))).collect();
+                        pa.len() == pb.len() && pa.iter().zip(pb.iter()).all(|(x, y)| (x - y).abs() <= 1e-12 * (1.0 + x.abs()))
+                    } else if c0 == "sample" {
+                        // different draws; compare shapes only
+                        a.split_whitespace().last().is_some() == b.split_whitespace().last().is_some()
+                    } else {
+                        a == b
+                    };
+                    if !same {
+                        return format!("diff rep={rep} step={i} {}", script[i].split_whitespace().take(3).collect::<Vec<_>>().join("_"));
+                    }
+                }
+            }
+            format!("equal {}", base.len())
+        }
+        "conc" => {
+            // conc <mode> <tasks> <seed>: registers driven concurrently with differing thread
+            // counts; every task's result must equal the same calls made alone; watchdog 30 s
+            let mode = toks[1].to_string();
+            let tasks: usize = toks[2].parse().unwrap();
+            let seed: u64 = toks[3].parse().unwrap();
+            let (tx, rx) = std::sync::mpsc::channel();
+            std::thread::spawn(move || {
+                let r = crate::conc::run(&mode, tasks, seed);
+                let _ = tx.send(r);
+            });
+            match rx.recv_timeout(std::time::Duration::from_secs(30)) {
+                Ok(r) => r,
+                Err(_) => {
+                    // the worker threads are stuck; nothing more can be executed in this process
+                    ABORT.store(true, std::sync::atomic::Ordering::SeqCst);
+                    "deadlock".to_string()
+                }
+            }
+        }
         "valid" => cvec(st.q.as_ref().expect("no qreg").verif_psi()),
         "qvreg" => vobs(&st.q.as_ref().expect("no qreg").get_vreg()),
         "qvregby" => match st.q.as_ref().expect("no qreg").get_vreg_by(toks[1].parse().unwrap()) {
@@ -425,6 +491,9 @@ pub fn exec(st: &mut St, cmd: &str) -> String {
 }
 
 /// Run a generated case: header + commands, executing each.
+/// set when the implementation is wedged (deadlock): the suite stops after the current case
+pub static ABORT: std::sync::atomic::AtomicBool = std::sync::atomic::AtomicBool::new(false);
+
 thread_local! {
     /// file that always names the command being executed (read by ./check after a timeout)
     pub static CURRENT_FILE: std::cell::RefCell<Option<String>> = std::cell::RefCell::new(None);
@@ -1312,6 +1381,50 @@ fn gen_c09_case(r: &mut Rng, stats: &mut HashMap<String, usize>) -> (String, Vec
     (format!("name={name} nq={nq}"), cmds)
 }
 
+/// C08: a script of register operations, single-threaded against k threads.
+fn gen_c08_case(r: &mut Rng, max_n: usize, big: bool, stats: &mut HashMap<String, usize>) -> (String, Vec<String>) {
+    let avail = rayon::current_num_threads();
+    let n = if big && r.chance(1, 3) { r.range(10, 14) } else { r.range(0, max_n) };
+    let k = r.range(2, avail.max(2));
+    let mut script: Vec<String> = vec![format!("qreg {n} THR")];
+    script.push(format!("setpsi {}", cvec(&rand_psi(r, n, false))));
+    for _ in 0..r.range(1, 5) {
+        match r.below(8) {
+            0..=3 => {
+                let nb = n.min(8);
+                script.push(format!("op {}", ops::prog_text(&unitary_prog(r, nb))));
+                script.push("apply".into());
+            }
+            4 => script.push("probs".into()),
+            5 => {
+                script.push(format!("collapse {} {}", r.below(1usize << n.min(20)), r.submask((1usize << n.min(20)) - 1)));
+                script.push("normalize".into());
+            }
+            6 if n <= 8 => {
+                script.push(format!("q2state {} {} THR", r.range(0, 2), 1));
+                script.push("tensor".into());
+            }
+            _ => script.push("absolute".into()),
+        }
+    }
+    script.push("psi".into());
+    *stats.entry(format!("n.{}", if n >= 10 { "big".to_string() } else { n.to_string() })).or_default() += 1;
+    *stats.entry(format!("k.{k}")).or_default() += 1;
+    let reps = if n >= 10 { 3 } else { 2 };
+    let mut cmds = vec!["threads".to_string(), format!("par {k} {reps} ;; {}", script.join(" ;; "))];
+    // refusal of inadmissible thread counts
+    let bad = *r.pick(&[0usize, avail + 1, avail + 7, 1, avail]);
+    cmds.push(format!("qreg 1 {bad}"));
+    (format!("n={n} k={k}"), cmds)
+}
+
+fn gen_c19_case(r: &mut Rng, stats: &mut HashMap<String, usize>) -> (String, Vec<String>) {
+    let mode = *r.pick(&["os", "rayon", "nested", "firstuse"][..]);
+    let tasks = r.range(2, 48);
+    *stats.entry(format!("mode.{mode}")).or_default() += 1;
+    (format!("mode={mode} tasks={tasks}"), vec![format!("conc {mode} {tasks} {}", r.next() >> 1)])
+}
+
 fn gen_dft_case(r: &mut Rng, max_n: usize, max_thr: usize, stats: &mut HashMap<String, usize>) -> (String, Vec<String>) {
     let n = r.range(1, max_n.max(1));
     let all = (1usize << n) - 1;
@@ -1354,6 +1467,8 @@ pub fn run(suite: &str, seed: u64, count: usize, kv: &HashMap<String, String>, t
             "meas" => gen_meas_case(&mut r, max_n, max_thr, &mut stats),
             "sample" => gen_sample_case(&mut r, max_n, max_thr, &mut stats),
             "bits" => gen_bits_case(&mut r, &mut stats),
+            "c08" => gen_c08_case(&mut r, max_n, kv.get("big").map(|s| s == "1").unwrap_or(false), &mut stats),
+            "c19" => gen_c19_case(&mut r, &mut stats),
             "int" => gen_int_case(&mut r, false, &mut stats),
             "intnu" => gen_int_case(&mut r, true, &mut stats),
             "c13" => gen_c13_case(&mut r, &mut stats),
@@ -1364,6 +1479,9 @@ pub fn run(suite: &str, seed: u64, count: usize, kv: &HashMap<String, String>, t
             other => panic!("unknown suite {other}"),
         };
         run_case(tr, (suite, seed, idx, &tags), &cmds);
+        if ABORT.load(std::sync::atomic::Ordering::SeqCst) {
+            break;
+        }
     }
     let mut keys: Vec<_> = stats.iter().collect();
     keys.sort();
